@@ -293,3 +293,116 @@ class ClientConnect:
         return (started == (1 if result else 0) and self.on_connected.g_fired - old.self.on_connected.g_fired == started
                 and implies(result, lambda: self._connected and self._connected_handled.g_set and not self._sock.g_closed)
                 and implies(not result, lambda: self._connected == old.self._connected))
+
+
+# ===================================================================== stopping the protocol threads (D9, D42)
+from secsgem.common.protocol_dispatcher import ProtocolDispatcher  # noqa: E402
+from spec.ext import AbsHook, AbsThread  # noqa: E402
+
+
+@contract("spec.ext:AbsThread.is_alive", "C09", name="IsAliveAbs")
+class IsAliveAbs:
+    """ASSUMED (threading): a thread that has ended stays ended; a live one may end at any time."""
+
+    abstract = True
+    modifies = {"self.g_dead": Bool}
+    returns = Bool
+
+    def ensures(self, old, result):
+        return implies(old.self.g_dead, self.g_dead) and result == (not self.g_dead)
+
+
+@contract("spec.ext:AbsThread.join", "C09", name="JoinAbs")
+class JoinAbs:
+    """ASSUMED (threading): join() without timeout returns when the thread has ended; with a timeout it may return before."""
+
+    abstract = True
+    modifies = {"self.g_dead": Bool}
+
+    def ensures(self, timeout, old):
+        return implies(old.self.g_dead, self.g_dead) and implies(timeout is None, self.g_dead)
+
+
+@contract("spec.ext:AbsHook.__call__", "C09", name="StoppedTargetAbs")
+class StoppedTargetAbs:
+    """ASSUMED effect (Protocol._fail_send_queue: every block still queued is resolved False), with the call-site OBLIGATION
+    of D42: the queue is emptied only when the thread that takes blocks from it has ended - a block it took is its own."""
+
+    abstract = True
+    modifies = {"self.g_calls": Int}
+
+    def requires(self):
+        return {"writer-thread-has-ended": self.g_owner._receiver_thread.g_dead}
+
+    def ensures(self, old):
+        return self.g_calls == old.self.g_calls + 1
+
+
+def _dispatcher():
+    return Obj(ProtocolDispatcher,
+               _receiver_thread=Obj(AbsThread, g_dead=Bool), _dispatcher_thread=Obj(AbsThread, g_dead=Bool),
+               _receiver_thread_trigger=Obj(AbsGate, g_set=Bool), _dispatcher_thread_trigger=Obj(AbsGate, g_set=Bool),
+               _stopped_target=Obj(AbsHook, g_calls=Int(0, None), g_owner=Root()),
+               _stop_receiver_thread=Bool, _stop_dispatcher_thread=Bool, _stopping=Bool)
+
+
+@contract("secsgem.common.protocol_dispatcher:ProtocolDispatcher._stop_threads", "C09")
+class StopThreads:
+    """When it returns both threads have ended and the pending sends were failed at least once AFTER that (a sender that
+    queued its block while the threads were stopping is not left waiting); they are never failed while the writer thread
+    may still take blocks (call-site obligation).  Not covered: stop() called on the dispatcher thread itself (the
+    stand-in of threading.current_thread() is never that thread)."""
+
+    uses = [GateSetAbs, IsAliveAbs, JoinAbs, StoppedTargetAbs]
+    canary = "every-path"
+
+    def inputs():
+        return {"self": _dispatcher()}
+
+    def raises():
+        return {}
+
+    def ensures(self, old):
+        return (self._receiver_thread.g_dead and self._dispatcher_thread.g_dead and self._stop_receiver_thread
+                and self._stopped_target.g_calls >= old.self._stopped_target.g_calls + 1)
+
+    def inv(self, old):
+        return (self._receiver_thread.g_dead and self._stop_receiver_thread and self._stop_dispatcher_thread
+                and self._stopped_target.g_calls >= old.self._stopped_target.g_calls)
+
+    loops = {1: Loop(a=inv, modifies=["self._dispatcher_thread.g_dead", "self._stopped_target.g_calls"])}
+
+
+@contract("secsgem.common.protocol_dispatcher:ProtocolDispatcher._stop_threads", "C09", name="StopThreadsAbs")
+class StopThreadsAbs:
+    """The post-condition proved as StopThreads; a stopped_target that raises is passed on."""
+
+    abstract = True
+    modifies = {"self._receiver_thread.g_dead": Bool, "self._dispatcher_thread.g_dead": Bool, "self._stop_receiver_thread": Bool,
+                "self._stop_dispatcher_thread": Bool, "self._stopped_target.g_calls": Int}
+    may_raise = [Exception]
+
+    def ensures(self, old):
+        return (self._receiver_thread.g_dead and self._dispatcher_thread.g_dead
+                and self._stopped_target.g_calls >= old.self._stopped_target.g_calls + 1)
+
+
+@contract("secsgem.common.protocol_dispatcher:ProtocolDispatcher.stop", "C09")
+class DispatcherStop:
+    """`stopping` (senders fail their own blocks while it is set) is set only for the duration of stop(): cleared on every
+    exit, also when a call-back raises - a flag left set would fail every later send of a reused endpoint."""
+
+    uses = [IsAliveAbs, StopThreadsAbs]
+    canary = "every-path"
+    may_raise = [Exception]
+
+    def inputs():
+        d = _dispatcher()
+        d.fields["_stopping"] = Const(False)
+        return {"self": d}
+
+    def ensures(self, old):
+        return not self._stopping
+
+    def when_raised(self, old):
+        return not self._stopping
